@@ -152,3 +152,16 @@ def units(prop, tier):
             pyvc_unit(prop, 'prime.test_probable_prime', tpp_registry, [P + 'test_probable_prime']),
             pyvc_unit(prop, 'prime.generate_probable_prime', gen_registry, [P + 'generate_probable_prime']),
             pyvc_unit(prop, 'prime.generate_probable_safe_prime', gen_registry, [P + 'generate_probable_safe_prime'])]
+
+
+# ----------------------------------------------------------------------------------------------------------------------
+# Vacuity / strength check (tools/mut.py, exit 1; obligation that caught it):
+#  miller_rabin_test: max_inclusive=candidate - 1           -> raises_only.AssertionError  (the body's assert is an obligation;
+#                                                               this mutant exposed an engine bug, fixed: interp.s_Assert)
+#  miller_rabin_test: even candidate -> PROBABLY_PRIME       -> miller_rabin_test.ensures.even
+#  test_probable_prime: table entry (620, 7) -> (620, 6)     -> test_probable_prime.call_pre.iterations_spec_primality_mr_iterations...
+#  test_probable_prime: Lucas test dropped                   -> test_probable_prime.ensures.composition
+#  generate_probable_prime: `| 1` dropped                    -> generate_probable_prime.loop_inv_preserved (odd)
+#  generate_probable_prime: prime_filter ignored             -> generate_probable_prime.loop_inv_preserved (filter_ok)
+#  generate_probable_prime: randfunc not passed to Integer.random -> exit 2 (first system-RNG use inside a cut loop is refused)
+#  generate_probable_safe_prime: size test dropped           -> exit 1 (loop_inv_preserved: size)
